@@ -96,8 +96,10 @@ theorem okS4L_okS5L (pk : Bool) (ps imp : List String) : (ss : List X.Stmt) → 
     exact ⟨okS4_okS5 pk ps imp s h.1, okS4L_okS5L pk ps imp ss h.2⟩
 end
 
-def isValFormal : X.Formal → Bool
+/-- `val` and `array` formals. -/
+def isVAFormal : X.Formal → Bool
   | .val _ => true
+  | .array _ => true
   | _ => false
 
 /-- One procedure of the program: source, frame index, position of its prologue, and the
@@ -222,7 +224,7 @@ structure GCtx.OK (G : GCtx) : Prop where
   smax_ok : ∀ pi ∈ G.procs, G.S pi ≤ G.smax
   body_ok : ∀ pi ∈ G.procs, okS5 G.pk G.pnames G.xc.impure pi.p.body = true
   pure_ok : G.pk = true → PureOk G.xc
-  formals_val : ∀ pi ∈ G.procs, pi.p.formals.all isValFormal = true
+  formals_ok : ∀ pi ∈ G.procs, pi.p.formals.all isVAFormal = true
   locals_var : ∀ pi ∈ G.procs, pi.p.locals.all isVarDecl = true
   resolve : ∀ f p, G.xc.genv.lookup f = some (.proc p) → ∃ pi ∈ G.procs, pi.p = p ∧ p.name = f
   callee_sym : ∀ pi ∈ G.procs, ∀ pj ∈ G.procs, ∃ sym, G.cg.tbl.lookup pi.p.name pj.p.name = .ok sym ∧
@@ -262,12 +264,12 @@ structure GCtx.OK (G : GCtx) : Prop where
     frame intact except `spc[0]` (link) and `spc[1]` (the value of a function), and the global
     state of the reference semantics in memory; or it terminates the program. -/
 def CallSpec (G : GCtx) (fuel : Nat) : Prop :=
-  ∀ pi ∈ G.procs, ∀ (ws : List Word) (st : X.St) (lnk b : Word) (mem : Mem) (spc : Nat) (k : Nat) (kind : LabelKind) (n : String),
-    GRep G st mem → mem.read 1 = BitVec.ofNat 32 spc →
-    (∀ j (hj : j < ws.length), mem.read (spc + pi.po + j) = ws[j]) →
-    G.spv ≤ spc + st.depth * G.smax → spc + pi.po + ws.length ≤ G.spv + 1 → G.lo ≤ spc →
+  ∀ pi ∈ G.procs, ∀ (vs : List Val) (st : X.St) (lnk b : Word) (mem : Mem) (spc : Nat) (k : Nat) (kind : LabelKind) (n : String),
+    GRep G st mem → mem.read 1 = BitVec.ofNat 32 spc → (∀ v ∈ vs, okV v = true) →
+    (∀ j (hj : j < vs.length), mem.read (spc + pi.po + j) = wordOf G.abase vs[j]) →
+    G.spv ≤ spc + st.depth * G.smax → spc + pi.po + vs.length ≤ G.spv + 1 → G.lo ≤ spc →
     G.env.ds[k]? = some (.label kind n) → G.env.addr k = lnk.toNat →
-    match X.callUser fuel G.xc pi.p (ws.map Val.int) st with
+    match X.callUser fuel G.xc pi.p vs st with
     | .ok res s' => ∃ a' b' mem', Steps G.env (cfg pi.iPro lnk b mem) st.io (cfg k a' b' mem') s'.io ∧
         GRep G s' mem' ∧ mem'.read 1 = BitVec.ofNat 32 spc ∧
         (∀ x, spc < x → x ≠ spc + 1 → ¬ G.inArr x → mem'.read x = mem.read x) ∧
